@@ -12,7 +12,7 @@ LEVEL = "fault_enumeration"
 BUDGET = {"quick": (8, 1), "thorough": (16, 1)}
 EXHAUSTIVE = {"quick": True, "thorough": True}
 RULE = ("Exhaustive enumeration of the fault catalogue: {missing set_der / set_next per state position; missing value per parameter kind (global, control, control+include_last, bspline); no method; "
-        "no solver; signal-valued and non-scalar objective; set_value on state / variable / foreign symbol; set_initial on parameter / foreign symbol; unknown grid name in subject_to, sample, integral, "
+        "no solver; signal-valued and non-scalar objective; set_value on state / variable / foreign symbol; set_initial on parameter / foreign symbol; unknown grid name in subject_to (path and boundary constraints), sample, integral, "
         "variable, parameter; foreign symbol in ODE / constraint / objective; constant-false constraint; algebraic equation with rk / expl_euler; time-varying, nonlinear or DAE model under SplineMethod; "
         "T, t0, DT, DT_control in the ODE} x every applicable position (which state, which stage of a two-stage problem) x method in {MultipleShooting, SingleShooting, DirectCollocation, SplineMethod} "
         "x base variants (quick: 2, thorough: 6; N, M, state widths). Every case builds a well-posed base OCP that is verified to solve, injects one fault, and requires an exception from the declaring "
@@ -114,6 +114,8 @@ class World:
                 stg.subject_to(ca.MX(2) <= ca.MX(1))
             if here and f == "unknown_grid_subject_to":
                 stg.subject_to(x1 <= 5, grid="foo")
+            if here and f == "unknown_grid_subject_to_boundary":
+                stg.subject_to(stg.at_tf(x2) <= 5, grid="foo")
             if here and f == "unknown_grid_integral":
                 stg.add_objective(stg.integral(ca.sumsqr(u), grid="foo"))
             if here and f == "unknown_grid_variable":
@@ -159,7 +161,7 @@ def catalogue(method, discrete):
             out.append(("missing_value", {"stage": s, "param": kind}))
         out.append(("no_method", {"stage": s}))
         for f in ("signal_objective", "nonscalar_objective", "set_value_on_state", "set_value_on_variable", "set_value_on_foreign", "set_initial_on_parameter", "set_initial_on_foreign",
-                  "unknown_grid_subject_to", "unknown_grid_integral", "unknown_grid_variable", "unknown_grid_parameter", "unknown_grid_sample",
+                  "unknown_grid_subject_to", "unknown_grid_subject_to_boundary", "unknown_grid_integral", "unknown_grid_variable", "unknown_grid_parameter", "unknown_grid_sample",
                   "foreign_in_ode", "foreign_in_constraint", "foreign_in_objective", "constant_false_constraint"):
             out.append((f, {"stage": s}))
         if not discrete:
